@@ -182,7 +182,13 @@ def _simple_unit(name, inject, harnesses, decode_fn=None, gen_fn=None, load_meta
 
 
 def unit_body(names, panic_tags=("C13",)):
-    return _simple_unit("body", {"body.rs": "body_h.rs"}, lambda tier, meta: ["body::verif_h::" + n for n in names],
+    def hs(tier, meta):
+        out = ["body::verif_h::" + n for n in names]
+        if tier != "quick":
+            # thorough: the same stream-level harnesses with 6 instead of 4 scripted events
+            out += ["body::verif_h::" + n + "6" for n in names if n.startswith("exactlen_")]
+        return out
+    return _simple_unit("body", {"body.rs": "body_h.rs"}, hs,
                         decode_fn=decode.decode_body, panic_tags=panic_tags)
 
 
@@ -261,7 +267,7 @@ def unit_file():
 
 
 def unit_dir():
-    return _simple_unit("dir", {"dir.rs": "dir_h.rs"}, lambda tier, meta: ["dir::verif_h::validate_path_sym"],
+    return _simple_unit("dir", {"dir.rs": "dir_h.rs"}, lambda tier, meta: ["dir::verif_h::validate_path_sym"] + (["dir::verif_h::validate_path_sym10"] if tier != "quick" else []),
                         decode_fn=decode.decode_dir, features=("dir",), panic_tags=("C13", "C19"))
 
 
@@ -314,7 +320,7 @@ PROPS["C02"]["explanation"] = ("Same executions as C01 for complete and single-r
 PROPS["C03"] = {
     "units": lambda tier, seed: [
         unit_range(),
-        unit_serve(g("unsat", "single", "multi", ir=("absent",)), panic_tags=("C13", "C03"), qkey=lambda c: (c["group"], c["method"])),
+        unit_serve(g("unsat", "single", "multi", ir=("absent",)), panic_tags=("C13", "C03"), qkey=lambda c: c["group"] if c["method"] == "GET" else "skip"),
     ],
     "explanation": "range::parse is executed symbolically on generated skeleton texts (1..3 specs, each of the three "
     "forms, optional whitespace after commas) whose numbers are free 64-bit values (integer parser stubbed) "
@@ -506,7 +512,7 @@ PROPS["C19"] = {
     "units": lambda tier, seed: [unit_dir()],
     "explanation": "validate_path on every ASCII path of <= 7 bytes vs the rule: NUL anywhere, leading '/', or a '/'-separated segment equal to '..'.",
     "functions": ["dir::validate_path"],
-    "bounds": {"path": "<= 7 bytes"},
+    "bounds": {"path": "<= 7 bytes (thorough: <= 10 bytes)"},
     "outside": ["openat, the .gz substitution, encoding()/add_encoding_headers (behind spawn_blocking and the file system)", "longer paths"],
     "assumptions": MODEL_ASSUMPTIONS,
     "level_note_extra": "partial: path validation only",
